@@ -101,6 +101,15 @@ ENV = """
         }
         pub fn clear(&mut self) { let mut i = 0usize; while i < 3 { let old = self.items[i].take(); std::mem::forget(old); i += 1; } }
         pub fn len(&self) -> usize { let mut n = 0usize; let mut i = 0usize; while i < 3 { if self.items[i].is_some() { n += 1; } i += 1; } n }
+        /// empties the map and hands out the entries
+        pub fn drain(&mut self) -> impl Iterator<Item = (K, V)> + '_ { self.items.iter_mut().filter_map(|kv| kv.take()) }
+        pub fn values_mut(&mut self) -> impl Iterator<Item = &mut V> { self.items.iter_mut().filter_map(|kv| kv.as_mut().map(|kv| &mut kv.1)) }
+        pub fn get(&self, k: &K) -> Option<&V> {
+            let mut i = 0usize;
+            while i < 3 { if let Some((k0, v0)) = &self.items[i] { if *k0 == *k { return Some(v0); } } i += 1; }
+            None
+        }
+        pub fn is_empty(&self) -> bool { self.len() == 0 }
         pub fn entry(&mut self, k: K) -> Entry<'_, K, V> {
             if self.contains_key(&k) { Entry::Occupied(OccupiedEntry { map: self, key: k }) } else { Entry::Vacant(VacantEntry { map: self, key: k }) }
         }
@@ -132,9 +141,9 @@ def sliced():
     _, mgr_impl = slicer.block(src, r"impl\s+FileManager\b")
     parts = ["    // ---- text of /repo's io.rs, unchanged ----",
              "    pub " + slicer.item_text(src, r"struct\s+FileInfo\b"),
-             "    impl FileInfo {\n" + slicer.functions_text(info_impl, INFO_FNS) + "\n    }",
+             "    impl FileInfo {\n" + slicer.functions_text(info_impl, slicer.closure(info_impl, INFO_FNS)) + "\n    }",
              "    pub " + slicer.item_text(src, r"struct\s+FileManager\b"),
-             "    impl FileManager {\n" + slicer.functions_text(mgr_impl, MANAGER_FNS) + "\n    }"]
+             "    impl FileManager {\n" + slicer.functions_text(mgr_impl, slicer.closure(mgr_impl, MANAGER_FNS)) + "\n    }"]
     return "\n\n".join(parts)
 
 
